@@ -263,7 +263,11 @@ impl Engine for ValidationEngine {
         d.sort();
         d.dedup();
         if name == "validate" {
-            let rules: Vec<&str> = op["violated"].as_array().map(|a| a.iter().filter_map(|v| v.as_str()).collect()).unwrap_or_default();
+            let overflow = op.get("cost").and_then(|c| c.as_i64()).map_or(false, |c| c > HUGE);
+            let rules: Vec<&str> = op["violated"]
+                .as_array()
+                .map(|a| a.iter().filter_map(|v| v.as_str()).map(|r| if r == "Funds" && overflow { "FundsOverflow" } else { r }).collect())
+                .unwrap_or_default();
             let dir = if exp["transact"] == json!(true) { "rejected-valid" } else { "accepted-invalid" };
             let what = if rules.is_empty() { gets(op, "kind").to_string() } else { rules.join("+") };
             format!("validate:{}[{}]:{}", dir, what, d.join(","))
